@@ -65,17 +65,24 @@ def confirm(prop, src, name):
 
 
 def run(name, props):
+    """Runs the checks against a scratch worktree of /repo's HEAD carrying the seeded patch (VERIF_REPO); /repo is not touched."""
     dst = os.path.join(VERIF, "seeded", name)
     meta = json.load(open(os.path.join(dst, "meta.json")))
     props = props or [meta["property"]]
-    rc, out = sh("git -C %s status --porcelain" % REPO)
-    assert out.strip() == "", "repo not clean: " + out
-    rc, out = sh("git -C %s apply %s" % (REPO, os.path.join(dst, "patch.diff")))
+    wt = "/tmp/seedrun_%s" % name
+    sh("git -C %s worktree remove --force %s" % (REPO, wt))
+    shutil.rmtree(wt, ignore_errors=True)
+    rc, out = sh("git -C %s worktree add -q --detach %s HEAD" % (REPO, wt))
     assert rc == 0, out
     try:
+        shutil.copy(os.path.join(REPO, "pygac", "version.py"), os.path.join(wt, "pygac", "version.py"))
+        rc, out = sh("git apply %s" % os.path.join(dst, "patch.diff"), cwd=wt)
+        assert rc == 0, out
+        env = dict(os.environ, VERIF_REPO=wt)
+        env.pop("PYTHONPATH", None)
         for p in props:
             t = time.time()
-            rc, out = sh("/venv/bin/python vf.py check %s --tier quick" % p, cwd=VERIF)
+            rc, out = sh("/venv/bin/python vf.py check %s --tier quick" % p, cwd=VERIF, env=env)
             lines = [l for l in out.splitlines() if l.startswith(("VIOLATION", "KNOWN", "MACHINERY", p))]
             detected = rc == 1 and any(l.startswith("VIOLATION") for l in lines)
             first = next((l for l in lines if l.startswith("VIOLATION")), "")
@@ -89,8 +96,8 @@ def run(name, props):
             meta["detected_by"][p] = dict(detected=detected, exit=rc, line=first, what=what[:300], wall_s=round(time.time() - t, 1))
             print(name, p, "DETECTED" if detected else "MISSED (rc=%d)" % rc, first, "|", what[:200])
     finally:
-        sh("git -C %s checkout -- ." % REPO)
-        # rebuild generated files for the clean tree lazily (next check does it)
+        sh("git -C %s worktree remove --force %s" % (REPO, wt))
+        shutil.rmtree(wt, ignore_errors=True)
     json.dump(meta, open(os.path.join(dst, "meta.json"), "w"), indent=1)
 
 
